@@ -17,6 +17,13 @@ func siblingChecks(p *load.Prog, r *report.Report, prop string) {
 	siblingChecksFrom(p, r, prop, p.ExportedAPI(), 9)
 }
 
+// roundPairs: k such that reduction rounds k and k+1 of the primitive have the same data-flow graph on the pinned
+// tree (confirmed by running sibling.Rounds on it).
+var roundPairs = map[string][]int{
+	"field.Mul": {3}, "field.Square": {3}, "field.ToMontgomery": {3}, "field.FromMontgomery": {3},
+	"scalar.Mul": {3}, "scalar.Square": {3}, "scalar.ToMontgomery": {2, 3}, "scalar.FromMontgomery": {3},
+}
+
 // leafEntries names, per property, the functions whose analysis takes the generated primitives as trusted leaves:
 // the primitives reachable from them must be intact (sibling cross-check) for the property's argument to stand.
 var leafEntries = map[string][]string{
@@ -83,6 +90,47 @@ func siblingChecksFrom(p *load.Prog, r *report.Report, prop string, entries []*s
 		}
 	}
 	r.Analysed["montgomery_tails_checked"] = nt
+	// consecutive reduction rounds of one primitive must be computed alike (E8-rounds); the pairs below hold on the
+	// pinned tree and are required (the first round is special: no incoming top word, pruned products)
+	nr := 0
+	for _, x := range []struct {
+		pkg *ssa.Package
+		m   *sibling.Modulus
+	}{{p.Field, mp}, {p.Scalar, mn}} {
+		for _, name := range []string{"Mul", "Square", "ToMontgomery", "FromMontgomery"} {
+			fn := x.pkg.Func(name)
+			if fn == nil || !reach[fn] {
+				continue
+			}
+			want := roundPairs[x.pkg.Pkg.Name()+"."+name]
+			if len(want) == 0 {
+				continue
+			}
+			res := sibling.Rounds(fn, x.m)
+			construct := x.pkg.Pkg.Name() + "." + name + " rounds"
+			if !res.Applies {
+				r.Fail(prop+".rounds", construct, p.Pos(fn.Pos()), "generated primitive tampered: the four reduction rounds (four multiplications by m') were not found")
+				continue
+			}
+			bad := map[int]bool{}
+			for _, k := range res.Bad {
+				bad[k] = true
+			}
+			done := map[int]bool{}
+			for _, k := range res.Pairs {
+				done[k] = true
+			}
+			good := true
+			for _, k := range want {
+				if bad[k] || !done[k] {
+					good = false
+				}
+			}
+			nr++
+			r.Check(good, prop+".rounds", construct, p.Pos(res.Pos), fmt.Sprintf("reduction rounds %v are computed like their successors (same data-flow graph on the five accumulator words)", want), "generated primitive tampered: "+res.Msg)
+		}
+	}
+	r.Analysed["montgomery_round_pairs_checked"] = nr
 	n := 0
 	for _, pair := range sibling.Pairs(p.Field, p.Scalar) {
 		fa, fb := pair[0], pair[1]
